@@ -148,10 +148,14 @@ static void verdictHandler(const char* rule, const std::string& detail) {
 // ------------------------------------------------------------------------------
 // main loop
 // ------------------------------------------------------------------------------
+int simevent_selftest();
+
 int main(int argc, char** argv) {
 	bool quiet = true;
-	for (int i = 1; i < argc; i++)
+	for (int i = 1; i < argc; i++) {
 		if (!strcmp(argv[i], "-v")) quiet = false;
+		if (!strcmp(argv[i], "--simevent-selftest")) return simevent_selftest();
+	}
 
 	setenv("USCXML_NOCACHE_FILES", "1", 0);
 	std::set_terminate(onTerminate);
